@@ -150,6 +150,12 @@ theorem step_tracks (o : Op) (s : List String × List (String × Int)) (h : trac
   | redeploy st ids' =>
     simp only [Op.step, Op.redeploy, epochOf]
     exact ⟨rfl, by intro r hr; cases hr⟩
+  | complete sd =>
+    have hk := (flush_ok o).1
+    simp only [Op.step, Op.complete, epochOf]
+    refine ⟨by rw [hk.ups, hk.wm]; exact h, ?_⟩
+    intro r hr
+    rw [hk.told r hr, ← h]
 
 theorem epochOf_append (s : List String × List (String × Int)) (a b : List OpEv) :
     epochOf s (a ++ b) = epochOf (epochOf s a) b := by
